@@ -628,7 +628,7 @@ def run(ctx, only_cases=None):
         res, pred = vlib.model_eval(PROP, terms, predict=True)
         mism = [i for i, ok in enumerate(res) if not ok]
         cand = [i for i in range(len(terms)) if len(mcases[i][0].get("steps", [])) <= 10]
-        small = cand[:: max(1, len(cand) // 30)][:30]
+        small = cand[:: max(1, len(cand) // 16)][:16]
         vm_bad = sorted(small[k] for k in vlib.vm_crosscheck(PROP, [terms[i] for i in small]))
         ext_bad = sorted(i for i in small if not res[i])
         if vm_bad != ext_bad:
